@@ -281,6 +281,9 @@ func (mgr *GCMgr) gc(bkt *Bucket, startChunkID, endChunkID int, merge bool) {
 			}
 
 			var isNewest, isCoverdByCollision, isDeleted bool
+			// isGuess: the record is kept although it is not known to be the
+			// current record of its key
+			var isGuess bool
 			meta := rec.Payload.Meta
 			ki := NewKeyInfoFromBytes(rec.Key, getKeyHash(rec.Key), false)
 			treeMeta, treePos, found := bkt.htree.get(ki)
@@ -301,6 +304,7 @@ func (mgr *GCMgr) gc(bkt *Bucket, startChunkID, endChunkID int, merge bool) {
 							}
 						} else {
 							isNewest = true // guess
+							isGuess = true
 							meta.ValueHash = rec.Payload.Getvhash()
 						}
 					}
@@ -310,14 +314,15 @@ func (mgr *GCMgr) gc(bkt *Bucket, startChunkID, endChunkID int, merge bool) {
 				// we are not sure whether the `set rec` is still in datafiles while `auto GC`, so we need to write a copy of `del rec` in datafile.
 				// but we can remove the `del rec` while GC begin with 0
 				fileState.NumNotInHtree++
-				if gc.Begin > 0 && rec.Payload.Ver < 0 {
-					isNewest = true
-				} else if hintit, _ := bkt.hints.collisions.get(ki.KeyHash, ki.StringKey); hintit != nil && hintit.Pos == oldPos {
+				if hintit, _ := bkt.hints.collisions.get(ki.KeyHash, ki.StringKey); hintit != nil && hintit.Pos == oldPos {
 					// the tree entry of a hash shared by several keys may be gone
 					// (removed by a sibling's delete) while the collision table
 					// still serves this key from exactly this record
 					isNewest = true
 					meta.ValueHash = hintit.Vhash
+				} else if gc.Begin > 0 && rec.Payload.Ver < 0 {
+					isNewest = true
+					isGuess = true // kept only because an older `set rec` may exist below the range
 				}
 			}
 
@@ -358,7 +363,11 @@ func (mgr *GCMgr) gc(bkt *Bucket, startChunkID, endChunkID int, merge bool) {
 			}
 
 			vhook.PointS("gc.afterRepoint", ki.StringKey)
-			rotated := bkt.hints.set(ki, &meta, newPos, recsize, "gc")
+			reason := "gc"
+			if isGuess {
+				reason = "gc-guess"
+			}
+			rotated := bkt.hints.set(ki, &meta, newPos, recsize, reason)
 			if rotated {
 				bkt.hints.trydumpExclusive(gc.Dst, false)
 			}
